@@ -5,6 +5,7 @@ import (
 	"time"
 
 	"github.com/karagenc/socket.io-go/internal/sync"
+	"github.com/karagenc/socket.io-go/internal/vhook"
 
 	"github.com/karagenc/socket.io-go/engine.io/parser"
 	"github.com/karagenc/socket.io-go/engine.io/transport"
@@ -107,6 +108,7 @@ func (s *serverSocket) upgradeTo(t ServerTransport, c *transport.Callbacks) {
 
 	c.Set(s.onPacket, s.onTransportClose)
 
+	vhook.Yield("eio.s.upgrade.beforeSwap", s)
 	s.transportMu.Lock()
 	defer s.transportMu.Unlock()
 
@@ -116,6 +118,7 @@ func (s *serverSocket) upgradeTo(t ServerTransport, c *transport.Callbacks) {
 
 	// Get the queued packets from the old transport and send them with the new one.
 	qp := old.QueuedPackets()
+	vhook.Event("eio.s.swap", "o", s, "to", t.Name(), "pk", qp)
 	for _, p := range qp {
 		if p.Type != parser.PacketTypeNoop {
 			t.Send(p)
@@ -139,13 +142,16 @@ func (s *serverSocket) pingPong(pingInterval time.Duration, pingTimeout time.Dur
 			s.onError(err)
 			return
 		}
+		vhook.Event("eio.s.ping", "o", s, "t", time.Now())
 		s.Send(ping)
 
 		select {
 		case <-s.pongChan:
 			s.debug.Log("pingPong", "pong received")
+			vhook.Event("eio.s.pong", "o", s, "t", time.Now())
 		case <-time.After(pingTimeout):
 			s.debug.Log("pingPong", "pingTimeout exceeded")
+			vhook.Event("eio.s.pingtimeout", "o", s, "t", time.Now())
 			s.close(ReasonPingTimeout, nil)
 			return
 		case <-s.closeChan:
@@ -156,6 +162,7 @@ func (s *serverSocket) pingPong(pingInterval time.Duration, pingTimeout time.Dur
 }
 
 func (s *serverSocket) onPacket(packets ...*parser.Packet) {
+	vhook.Event("eio.s.recv", "o", s, "pk", packets)
 	s.getCallbacks().OnPacket(packets...)
 	for _, packet := range packets {
 		s.handlePacket(packet)
@@ -189,6 +196,7 @@ func (s *serverSocket) onError(err error) {
 func (s *serverSocket) Send(packets ...*parser.Packet) {
 	s.transportMu.RLock()
 	defer s.transportMu.RUnlock()
+	vhook.Event("eio.s.send", "o", s, "tr", s.transport.Name(), "pk", packets)
 	s.transport.Send(packets...)
 }
 
@@ -223,6 +231,7 @@ func (s *serverSocket) close(reason Reason, err error) {
 
 	s.closeOnce.Do(func() {
 		s.debug.Log("Going to close the socket. It is not already closed. Reason", reason)
+		vhook.Event("eio.s.close", "o", s, "reason", string(reason), "t", time.Now())
 		close(s.closeChan)
 		defer s.onClose(s.id)
 
